@@ -27,3 +27,43 @@ Theorem C09_example_opaque :
   | PErr _ => False
   end.
 Proof. vm_compute. split; reflexivity. Qed.
+
+From CC Require Import Model.ScanSpec Proofs.ScanFacts.
+
+(** decoding = C's decoding on every well-formed literal body (simple escapes) *)
+Theorem C09_decode_correct : forall s t, c_decode s = Some t -> decode s = t.
+Proof. exact decode_correct. Qed.
+
+(** a literal = C's bytes followed by exactly one NUL *)
+Theorem C09_literal_bytes_c : forall s t, c_decode s = Some t ->
+  compile_quoted_string [s] = t ++ String (chr 0) "".
+Proof. exact literal_bytes_c. Qed.
+
+(** character constants *)
+Theorem C09_char_const_plain : forall c, c <> "\"%char -> quoted_character (String c "") = Some c.
+Proof. exact char_const_plain. Qed.
+Theorem C09_char_const_escape : forall (e : ascii) (n : nat), c_escape e = Some n ->
+  quoted_character ("\" ++ String e "") = Some (chr n).
+Proof. exact char_const_escape. Qed.
+
+(** the scanner finds the true end of every scannable literal body ... *)
+Theorem C09_find_close_exact : forall body rest, scannable body ->
+  find_close (S (String.length (body ++ """" ++ rest))) (body ++ """" ++ rest) "" = Some (body, rest).
+Proof. exact find_close_exact. Qed.
+
+(** ... and records it VERBATIM, whatever it contains (//, /*, */, #, @, macro names), replacing it
+    by an opaque marker that later stages cannot confuse with code *)
+Theorem C09_literal_opaque : forall pre body post st,
+  sc_in_comment st = false -> no_markers pre -> scannable body ->
+  contains """" post = false -> contains "//" post = false -> contains "/*" post = false ->
+  scan_line false (pre ++ """" ++ body ++ """" ++ post) st
+  = ScanOk (pre ++ "@" ++ string_of_N (sc_next_lit st) ++ "@" ++ post) true
+           (mkScan false (sc_next_lit st + 1) (body :: sc_lits st)).
+Proof. exact scan_line_one_literal. Qed.
+
+(** the limitation: a body containing backslash backslash quote is never returned whole (it is
+    rejected or mis-split: a rejection / known limitation, see DESIGN.md) *)
+Theorem C09_find_close_inexact : forall body rest fuel,
+  pair_wf body = true -> contains bs_bs_quote body = true ->
+  find_close fuel (body ++ """" ++ rest) "" <> Some (body, rest).
+Proof. exact find_close_inexact. Qed.
